@@ -24,6 +24,7 @@ mod c16b;
 mod c12;
 mod c19;
 mod c14;
+mod c20;
 
 pub struct Budget {
     pub end: Instant,
@@ -52,6 +53,7 @@ fn run_one(pid: &str, input: &Value) -> Option<Value> {
         "C12" => c12::run(&input),
         "C19" => c19::run(&input),
         "C14" => c14::run(&input),
+        "C20" => c20::run(&input),
         _ => None,
     });
     match r {
@@ -84,6 +86,7 @@ fn gen(pid: &str, r: &mut rng::Rng) -> Option<Value> {
         "C12" => Some(c12::gen(r)),
         "C19" => Some(c19::gen(r)),
         "C14" => Some(c14::gen(r)),
+        "C20" => Some(c20::gen(r)),
         _ => None,
     }
 }
